@@ -15,6 +15,8 @@ import PtProofs.ReshapeLemmas
 import PtProofs.PadLemmas
 import PtProofs.EinsumLowerLemmas
 import PtProofs.AdvIndexLemmas
+import PtProofs.BinopLemmas
+import PtGen.ApiNames
 namespace Pt
 
 /-! ## re-exported slice / linearisation theorems (statements in SliceLemmas / BasicLemmas) -/
@@ -303,6 +305,84 @@ theorem lower_advindex_correct (contig : Bool) (B : Shape) (first last : Nat) (i
     obtain ⟨pre, blk, post, hseg⟩ := hs rfl
     exact advIndex_contig_eval ⟨hva, hB, hnd, hn, hi⟩ hseg hv
 
+/-! ## the array API: binary operators, comparisons, logical operations, `where` -/
+
+/-- `broadcast_binary_op` (every arithmetic / bitwise operator in both operand
+    orders, every comparison, `logical_and/or`): for ALL operand shapes that
+    broadcast (any ranks, stretched length-1 axes, missing leading axes, 0-d
+    arrays, Python / NumPy scalars on either side), all operand values and every
+    operator, the index lambda the API builds — with its `TypeCast`s — evaluates
+    at any in-bounds index to NumPy's broadcasting semantics
+    `op (cast a[bcast i]) (cast b[bcast i])` (`Spec.binopV`; `SUB` is
+    `a + (-1)*b`, also when pymbolic folds a constant second operand). -/
+theorem binop_sound (op : Raise.BinOp) (o1 o2 : BOpd) (v1 v2 : Option (Arr Val)) (r : Shape)
+    (res : String) (cast isPow : Bool) (binds : List (String × Arr Val)) (i : Idx)
+    (hr : ptBroadcast [Lower.opdShape o1, Lower.opdShape o2] = some r)
+    (h1 : OpdOK 0 o1 v1 binds) (h2 : OpdOK 1 o2 v2 binds) (hi : inB r i = true) :
+    eval (idxEnv i binds) (Lower.binopExpr op o1 o2 r res cast isPow)
+      = (Spec.binopV op o1 o2 v1 v2 r res cast isPow).get i :=
+  binopExpr_eval op o1 o2 v1 v2 r res cast isPow binds i hr h1 h2 hi
+
+/-- `pt.where(c, x, y)` = `numpy.where` with broadcasting of all three operands -/
+theorem where_sound (oc ox oy : BOpd) (vc vx vy : Option (Arr Val)) (r : Shape)
+    (binds : List (String × Arr Val)) (i : Idx)
+    (hr : ptBroadcast [Lower.opdShape oc, Lower.opdShape ox, Lower.opdShape oy] = some r)
+    (h1 : OpdOK 0 oc vc binds) (h2 : OpdOK 1 ox vx binds) (h3 : OpdOK 2 oy vy binds)
+    (hi : inB r i = true) :
+    eval (idxEnv i binds) (Lower.whereExpr oc ox oy r) = (Spec.whereV oc ox oy vc vx vy r).get i :=
+  whereExpr_eval oc ox oy vc vx vy r binds i hr h1 h2 h3 hi
+
+/-! ### every API function emits the operation of its own name
+
+The INTENDED table, written by hand — this is the specification:
+API function ↦ the C99 function it must call ↦ the NumPy function of that meaning
+(the name the Python target must emit for the C99 call; the loopy target emits
+the C99 name itself).  `PtGen.apiCallRows / apiOpRows / c99NumpyRows` are
+regenerated from the live pytato code on every run. -/
+
+def intendedCalls : List (String × String × String) := [
+  ("abs", "abs", "abs"), ("sqrt", "sqrt", "sqrt"),
+  ("sin", "sin", "sin"), ("cos", "cos", "cos"), ("tan", "tan", "tan"),
+  ("arcsin", "asin", "arcsin"), ("arccos", "acos", "arccos"), ("arctan", "atan", "arctan"),
+  ("arctan2", "atan2", "arctan2"),
+  ("sinh", "sinh", "sinh"), ("cosh", "cosh", "cosh"), ("tanh", "tanh", "tanh"),
+  ("exp", "exp", "exp"), ("log", "log", "log"), ("log10", "log10", "log10"),
+  ("isnan", "isnan", "isnan"), ("real", "real", "real"), ("imag", "imag", "imag"),
+  ("conj", "conj", "conj")]
+
+/-- operator / function ↦ head of the scalar expression and operand order
+    (`0` = the left operand of the Python expression, `1` = the right one) -/
+def intendedOps : List (String × String) := [
+  ("__add__", "add 0 1"), ("__radd__", "add 0 1"), ("__sub__", "sub 0 1"), ("__rsub__", "sub 0 1"),
+  ("__mul__", "mul 0 1"), ("__rmul__", "mul 0 1"),
+  ("__truediv__", "quot 0 1"), ("__rtruediv__", "quot 0 1"),
+  ("__floordiv__", "fdiv 0 1"), ("__rfloordiv__", "fdiv 0 1"),
+  ("__mod__", "rem 0 1"), ("__rmod__", "rem 0 1"), ("__pow__", "pow 0 1"), ("__rpow__", "pow 0 1"),
+  ("__and__", "call bitand 0 1"), ("__rand__", "call bitand 0 1"),
+  ("__or__", "call bitor 0 1"), ("__ror__", "call bitor 0 1"),
+  ("__xor__", "call bitxor 0 1"), ("__rxor__", "call bitxor 0 1"),
+  ("equal", "cmp == 0 1"), ("not_equal", "cmp != 0 1"), ("less", "cmp < 0 1"),
+  ("less_equal", "cmp <= 0 1"), ("greater", "cmp > 0 1"), ("greater_equal", "cmp >= 0 1"),
+  ("logical_and", "and 0 1"), ("logical_or", "or 0 1")]
+
+def intendedC99 (api : String) : Option String :=
+  (intendedCalls.find? (·.1 == api)).map (·.2.1)
+def intendedNumpy (c99 : String) : Option String :=
+  (intendedCalls.find? (·.2.1 == c99)).map (·.2.2)
+def intendedOp (api : String) : Option String := (intendedOps.find? (·.1 == api)).map (·.2)
+
+/-- every function of `pytato.cmath` emits the call `pytato.c99.<its own C99 name>`
+    (the mutant `pt.sinh ↦ "cosh"` fails here), every operator / comparison /
+    logical function emits its own expression head with its operands in order,
+    and the Python target translates every C99 name to the NumPy function of the
+    same meaning — kernel-checked against today's pytato. -/
+theorem api_emits_own_name :
+    (∀ r ∈ PtGen.apiCallRows, (intendedC99 r.1).map ("pytato.c99." ++ ·) = some r.2.1) ∧
+    (∀ r ∈ PtGen.apiOpRows, intendedOp r.1 = some r.2) ∧
+    (∀ r ∈ PtGen.c99NumpyRows, intendedNumpy r.1 = some r.2) ∧
+    (∀ a ∈ intendedCalls, PtGen.apiCallRows.any (·.1 == a.1) = true) ∧
+    (∀ a ∈ intendedOps, PtGen.apiOpRows.any (·.1 == a.1) = true) := by decide +kernel
+
 /-! ## non-vacuity: concrete instances satisfying the hypotheses -/
 
 /-- a 2×3 test array with entries 1..6 -/
@@ -450,5 +530,26 @@ example : AdvSeg exAdvC [.slice (some 1) none 1] [.arr exI21 false] [] 1 1 :=
   ⟨rfl, by simp [RAIdx.isSlice], by simp [RAIdx.isSlice], by simp, rfl, rfl⟩
 example : Lower.advValidAffine exAdvC [3, 4] ∧ Lower.advValidAffine exAdvN [3, 4, 2] := by
   simp [Lower.advValidAffine, exAdvC, exAdvN]
+
+-- the API layer: int64 (2×3) + float64 (3,) with a cast, 2.5 - x, x - 2 (folded), where with a (2,1) condition
+def exB21 : Arr Val := Arr.ofList [2, 1] [.b true, .b false] .undef
+def exF3 : Arr Val := Arr.ofList [3] [.q (1/2), .i 2, .q (-3/2)] .undef
+example : ptBroadcast [Lower.opdShape (.arr [2, 3] "int64"), Lower.opdShape (.arr [3] "float64")] = some [2, 3]
+    ∧ OpdOK 0 (.arr [2, 3] "int64") (some exArr) [("_in0", exArr), ("_in1", exF3)]
+    ∧ OpdOK 1 (.arr [3] "float64") (some exF3) [("_in0", exArr), ("_in1", exF3)] :=
+  ⟨by decide, ⟨rfl, rfl⟩, ⟨rfl, rfl⟩⟩
+example : (Lower.binop .add (.arr [2, 3] "int64") (.arr [3] "float64") "float64" true false).map
+      (fun p => (p.1, (evalIL p.2 p.1 [("_in0", exArr), ("_in1", exF3)]).toList))
+    = some ([2, 3], (Spec.binopV .add (.arr [2, 3] "int64") (.arr [3] "float64") (some exArr) (some exF3)
+        [2, 3] "float64" true false).toList) := by decide +kernel
+example : (Lower.binop .sub (.pyScalar (.rat 5 2)) (.arr [2, 3] "int64") "float64" true false).map
+      (fun p => (evalIL p.2 p.1 [("_in1", exArr)]).toList)
+    = some [.q (3/2), .q (1/2), .q (-1/2), .q (-3/2), .q (-5/2), .q (-7/2)] := by decide +kernel
+example : (Lower.binop .sub (.arr [2, 3] "int64") (.pyScalar (.int 2)) "int64" true false).map
+      (fun p => (evalIL p.2 p.1 [("_in0", exArr)]).toList)
+    = some [.i (-1), .i 0, .i 1, .i 2, .i 3, .i 4] := by decide +kernel
+example : (Lower.where_ (.arr [2, 1] "bool") (.arr [2, 3] "int64") (.pyScalar (.int 0))).map
+      (fun p => (p.1, (evalIL p.2 p.1 [("_in0", exB21), ("_in1", exArr)]).toList))
+    = some ([2, 3], [.i 1, .i 2, .i 3, .i 0, .i 0, .i 0]) := by decide +kernel
 
 end Pt
